@@ -6,8 +6,10 @@
    started operation's callback appears exactly once in the trace, Cancel completes each in-flight operation once with
    the cancellation error, nothing of an object runs after its Close) is the extracted ledger oracle Spec/OpLedger.v,
    run on the model's trace and on the implementation's trace of every script; the theorems are the per-step facts that
-   make it hold.  PARTIAL: the induction of the ledger over whole histories is not proved in Coq. *)
-From Sonic Require Import Base.Prelude Gen.Consts Model.Loop Proofs.LoopProofs Proofs.LoopClosed.
+   make it hold.  "Never twice" is proved over whole histories (C01_never_twice_over_all_histories, Proofs/LoopOnce.v).
+   PARTIAL: "never zero times" over whole histories (every operation of a polled, open object eventually completes) is
+   proved per poll (C01_ready_read_is_dispatched) and judged by the ledger, not proved as one liveness statement. *)
+From Sonic Require Import Base.Prelude Gen.Consts Model.Loop Proofs.LoopProofs Proofs.LoopClosed Proofs.LoopOnce.
 Local Open Scope Z_scope.
 
 (* Never twice: the poller removes the interest before it dispatches, and a batch entry whose object has no interest
@@ -85,3 +87,36 @@ Example C01_demo :
   filter (fun e => match e with LCb _ _ _ _ => true | _ => false end) (rev (l_log s)) = [LCb 10 0 4 1; LCb 20 2 0 2]
   /\ l_pending s = 0 /\ l_fuel_out s = false.
 Proof. vm_compute. auto. Qed.
+
+(* NEVER TWICE, over whole histories.  c is a callback identifier the script uses for read/write/accept/datagram operations
+   only ([lop_ok c]: no timer and no posted handler carries it).  [starts c s] / [cbs c s]: how many operations were started
+   with c / how many times a callback c ran, in the whole trace; [pendc c s]: operations holding c that are registered with
+   the poller right now.  For EVERY script - any objects (sockets, FIFO ends, regular files, listeners, packet conns,
+   descriptors closed underneath), any handler programs (re-issue, cancel, close, re-arm itself or another object), any
+   batches and masks, any peer behaviour, inline and deferred paths - unless the script itself starts an operation on a
+   direction that still has one deferred in flight (outside the library's contract; [l_overlap] records it):
+   completions + operations still in flight never exceed the operations started.  With one identifier per operation this
+   is "no completion callback ever runs twice". *)
+Theorem C01_never_twice_over_all_histories : forall c, c <> 0 -> forall ops,
+  Forall (lop_ok c) ops ->
+  let s := lrun loop_init ops in
+  l_overlap s = false -> cbs c s + pendc c s <= starts c s /\ cbs c s <= starts c s.
+Proof. exact completions_never_exceed_starts. Qed.
+Print Assumptions C01_never_twice_over_all_histories.
+
+(* Non-vacuity: the demo script above keeps the contract and each of its two operations completed exactly once; and the
+   contract matters: a second read started while the first is deferred makes the later callback run twice - the flag is set. *)
+Example C01_never_twice_demo :
+  let ops := [LObj 1 KSock; LObj 2 KSock; LProg 10 [ACancel 2]; LProg 20 [];
+              LDepth 0; LAct (AStart false false 1 4 10); LAct (AStart false false 2 4 20);
+              LPeer 1 (PData 4); LPeer 2 (PData 4); LPoll [(0, 1, 1); (0, 2, 1)]] in
+  let s := lrun loop_init ops in
+  Forall (lop_ok 10) ops /\ Forall (lop_ok 20) ops /\ l_overlap s = false /\
+  starts 10 s = 1 /\ cbs 10 s = 1 /\ starts 20 s = 1 /\ cbs 20 s = 1 /\ pendc 10 s = 0 /\ pendc 20 s = 0.
+Proof. cbv zeta. split; [repeat constructor|]. split; [repeat constructor|]. vm_compute. repeat split; reflexivity. Qed.
+
+Example C01_overlapping_starts_break_it :
+  let s := lrun loop_init [LObj 1 KSock; LAct (AStart false false 1 4 10); LPeer 1 (PData 8);
+                           LAct (AStart false false 1 4 11); LPoll [(0, 1, 1)]] in
+  l_overlap s = true /\ starts 11 s = 1 /\ cbs 11 s = 2.
+Proof. vm_compute. repeat split; reflexivity. Qed.
